@@ -128,12 +128,13 @@ def install_sow(R):
     prep_crash = ("OldOr2(FnPath(self.location), fs_exists(FnPath(self.location)) and fs_complete(FnPath(self.location)), "
                   "InfoPath(self.location), " + info_saved[1] + ")")
     R.add(K + "Crop.save_info", cls="Crop", result="none", props=["C04", "C07"],
-          requires=[("raw_crop", "self.farmer is None")],
+          requires=[],
           modifies=["ghost:FS"],
           ensures=[info_saved, ("frame", "fs_same_except(InfoPath(self.location))")],
-          raises={"OSError": dict(ensures=["fs_same_except(InfoPath(self.location))", info_crash])},
+          raises={"OSError": dict(ensures=["fs_same_except(InfoPath(self.location))", info_crash]),
+                  "AnyError": dict(ensures=["fs_same_except(InfoPath(self.location))", info_crash])},
           crash=[("crash.settings_file_old_or_complete_and_new", info_crash)],
-          notes="raw crops (no farmer); the pickled farmer of Runner/Harvester/Sampler crops is C06")
+          notes="the farmer (if any) is stored as a pickled copy without its function (copy.deepcopy / to_pickle: assumed)")
     R.get(K + "Crop.save_info").prop_map["crash."] = ["C10"]
 
     R.add(K + "Crop.save_function_to_disk", cls="Crop", result="none", props=["C04"],
@@ -145,10 +146,11 @@ def install_sow(R):
     R.add(K + "Crop.ensure_dirs_exists", cls="Crop", inline=True)
 
     R.add(K + "Crop.prepare", cls="Crop", result="none", props=["C04", "C07"],
-          requires=[("raw_crop", "self.farmer is None")],
+          requires=[],
           modifies=["ghost:FS"],
           ensures=[info_saved, ("frame", "fs_same_except2(InfoPath(self.location), FnPath(self.location))")],
-          raises={"OSError": dict(ensures=["fs_same_except2(InfoPath(self.location), FnPath(self.location))", prep_crash])},
+          raises={"OSError": dict(ensures=["fs_same_except2(InfoPath(self.location), FnPath(self.location))", prep_crash]),
+                  "AnyError": dict(ensures=["fs_same_except2(InfoPath(self.location), FnPath(self.location))", prep_crash])},
           crash=[("crash.settings_and_function_files_old_or_complete", prep_crash)])
     R.get(K + "Crop.prepare").prop_map["crash."] = ["C10"]
     return R
@@ -246,8 +248,8 @@ def install_sow2(R):
     S["SowerInvIfSower"] = sower_inv_if
 
     R.add(K + "Crop.sow_combos", cls="Crop", result="none", props=["C04", "C07", "C08"],
-          requires=[("raw_crop", "self.farmer is None"),
-                    ("inputs", "(combos is None or is_dict(combos) or is_seq(combos)) and (cases is None or is_dict(cases) or is_seq(cases)) "
+          prop_map={"constants_given_here_are_saved_for_the_reap": ["C04", "C06", "C15"]},
+          requires=[("inputs", "(combos is None or is_dict(combos) or is_seq(combos)) and (cases is None or is_dict(cases) or is_seq(cases)) "
                                "and (constants is None or is_dict(constants))"),
                     ("batching_request", "none_or_int(self.batchsize) and none_or_int(self.num_batches) and none_or_int(self._batch_remainder) and "
                                          "none_or_int(batchsize) and none_or_int(num_batches) and (self._batch_remainder is None or ival(self._batch_remainder) >= 0)")],
@@ -277,8 +279,8 @@ def install_sow3(R):
     CASE = "xyzpy/gen/case_runner.py:"
     # caller-side refinement of case_runner: it hands everything to the core runner (case_runner's own trace obligations, C02)
     R.add(K + "Crop.sow_cases", cls="Crop", result="none", props=["C04", "C07", "C08"],
-          requires=[("raw_crop", "self.farmer is None"),
-                    ("inputs", "(cases is None or is_dict(cases) or is_seq(cases)) and (combos is None or is_seq(combos)) and (constants is None or is_dict(constants)) "
+          prop_map={"constants_given_here_are_saved_for_the_reap": ["C04", "C06", "C15"]},
+          requires=[("inputs", "(cases is None or is_dict(cases) or is_seq(cases)) and (combos is None or is_seq(combos)) and (constants is None or is_dict(constants)) "
                                "and (fn_args is None or isinstance(fn_args, str) or is_seq(fn_args))"),
                     ("batching_request", "none_or_int(self.batchsize) and none_or_int(self.num_batches) and none_or_int(self._batch_remainder) and "
                                          "none_or_int(batchsize) and none_or_int(num_batches) and (self._batch_remainder is None or ival(self._batch_remainder) >= 0)")],
